@@ -7,7 +7,7 @@ From stdpp Require Import gmap sets list.
 From Coq Require Import NArith.
 From SV Require Import SM.IndexModel SM.IndexProofs SM.IndexSearchProofs SM.IndexShapes SM.IndexShapeProofs
   SM.IndexUniqueProofs SM.IndexCopySetProofs SM.IndexMaint SM.IndexMaintProofs SM.IndexEquivProofs
-  SM.IndexRemove SM.IndexRemoveProofs SM.IndexDel SM.IndexDelProofs SM.IndexListOps SM.IndexListOpsProofs.
+  SM.IndexRemove SM.IndexRemoveProofs SM.IndexDel SM.IndexDelProofs SM.IndexListOps SM.IndexListOpsProofs SM.IndexClear SM.IndexClearProofs.
 
 Section C07.
   Variable fold : str → str.
@@ -113,6 +113,16 @@ Section C07.
   Proof.
     intros p dl e key st Hp Hdl. rewrite (del_item_pg_ok fold p dl e key st Hp Hdl). split; [done|].
     by apply del_item_inv.
+  Qed.
+
+  (** Entity.clear as written (round 3): a straight-line list of steps read off the source.  When the classname is reset
+      through __setitem__ and the targetname deleted through __delitem__ before the key dict is emptied directly, and
+      the classname is stored back afterwards, the function is the model's [clear] for every entity and state (the
+      only assumption: 'nodeid'.casefold() is neither 'classname' nor 'targetname'), and keeps the invariant. *)
+  Theorem c07_clear_as_written : fold nodeid ≠ cn ∧ fold nodeid ≠ tn → ∀ l e st, clear_ok l = true →
+    clear_pg fold l e st = clear fold e st ∧ (Inv fold st → Inv fold (clear_pg fold l e st).1).
+  Proof.
+    intros Hn l e st Hl. rewrite (clear_pg_ok fold Hn l e st Hl). split; [done|]. by apply clear_inv.
   Qed.
 
   (** VMF.remove_ent and VMF.add_ent as written (round 3): little programs over the entity list and the two indexes
@@ -306,6 +316,17 @@ Theorem c07_remove_ent_variants_refuted :
    remove_still_listed_stays_indexed remove_ent_and_guard = false ∧
    ¬ Inv ascii_fold (v_run ascii_fold remove_ent_and_guard 0 init)).
 Proof. exact listops_refutations. Qed.
+
+(** Entity.clear: today's step list passes; without `del self['targetname']` before the dict is emptied the entity
+    keeps its old name in by_target (computed witness on a reachable state). *)
+Example c07_clear_today_ok : clear_ok clear_today = true ∧ (ascii_fold nodeid ≠ cn ∧ ascii_fold nodeid ≠ tn).
+Proof. split; [reflexivity|split; by vm_compute]. Qed.
+Theorem c07_clear_forgets_targetname_refuted :
+  clear_reindexes_before_emptying clear_forgets_targetname = false ∧ clear_keeps_the_classname clear_forgets_targetname = true ∧
+  let st0 := run ascii_fold [CreateEnt [97]%N [(tn, [120]%N)]] init in
+  let r := clear_pg ascii_fold clear_forgets_targetname 1 st0 in
+  Inv ascii_fold st0 ∧ r.2 = 0 ∧ keys_of r.1 1 = [(cn, inull)] ∧ ¬ Inv ascii_fold r.1.
+Proof. exact clear_forgets_targetname_refuted. Qed.
 
 (** The hypotheses are satisfiable: ASCII lower-casing. *)
 Example c07_ascii_fold_ok :
